@@ -294,6 +294,7 @@ func replayCase(n int, c Case, hookbin string) Result {
 	lastFail := map[string]time.Time{}
 	running := map[string]string{} // queue -> hook of the process in progress
 	shut := false
+	handled := map[string]string{} // queue -> status of a handler that already returned (tasks without a hook process)
 	for i := 1; i < len(c.Steps); i++ {
 		st := c.Steps[i]
 		a := st["act"].([]interface{})
@@ -359,8 +360,18 @@ func replayCase(n int, c Case, hookbin string) Result {
 					return bad(i, sig, fmt.Sprintf("hook %s received contexts %v, specification %v", e.Hook, got, want))
 				}
 			} else {
-				// no hook process for this task: nothing must start
-				time.Sleep(2 * time.Millisecond)
+				// no hook process for this task: the handler returns by itself; what it did (monitors started,
+				// schedules enabled, monitors unlocked) is done when it has returned
+				status, err := f.WaitHandlerReturn(q, 8*time.Second)
+				if err != nil {
+					return bad(i, "DIV/steer/Pick", err.Error())
+				}
+				handled[q] = status
+				if t.Type == "EnableKube" {
+					if err := f.WaitWatches(t.Hook); err != nil {
+						return bad(i, "DIV/watch", err.Error())
+					}
+				}
 				if xs := f.NewExecs(); len(xs) > 0 {
 					return bad(i, "C06/unexpected-execution", fmt.Sprintf("hook %s was executed with %v for a task that must not run the hook (%s)", xs[0].Hook, execCtxs(&xs[0]), brief([]specTask{t})))
 				}
@@ -372,19 +383,41 @@ func replayCase(n int, c Case, hookbin string) Result {
 			t := toTask(prev["task"])
 			wantStatus := "Success"
 			if id := execID[q]; id != "" {
-				code := 0
+				outcome := map[string]interface{}{"exit": 0}
 				if !ok {
-					code = 1
 					if !t.Af {
 						wantStatus = "Fail"
 					}
+					// the ways an execution can fail: exit code, unparsable metrics, unparsable patch, a patch that cannot be applied
+					switch (n + i) % 4 {
+					case 0:
+						outcome["exit"] = 1
+					case 1:
+						outcome["metrics"] = `{"name":"m","action":"set","value": oops`
+					case 2:
+						outcome["patch"] = `{"operation":"NoSuchOperation","kind":"ConfigMap","name":"x"}`
+					case 3:
+						outcome["patch"] = `{"operation":"MergePatch","kind":"ConfigMap","namespace":"default","name":"does-not-exist","mergePatch":{"data":{"a":"b"}}}`
+					}
 				}
-				f.FinishExec(id, map[string]interface{}{"exit": code})
+				f.FinishExec(id, outcome)
 				delete(execID, q)
 			}
 			var status string
 			var err error
-			if shut {
+			if st0, done := handled[q]; done {
+				delete(handled, q)
+				status = st0
+				if shut {
+					var id string
+					id, err = f.DrainToExit(q, 5*time.Second)
+					if err == nil && id != "" {
+						return bad(i, "C17/start-after-shutdown", fmt.Sprintf("queue %s started task %s after Shutdown", q, id))
+					}
+				} else {
+					err = f.WalkToTop(q)
+				}
+			} else if shut {
 				status, err = f.WaitHandlerReturn(q, 8*time.Second)
 				if err == nil {
 					var id string
@@ -399,12 +432,7 @@ func replayCase(n int, c Case, hookbin string) Result {
 			if err != nil {
 				return bad(i, "DIV/steer/Finish", err.Error())
 			}
-			if t.Type == "EnableKube" {
-				// the monitors were started by this task: wait until their informers really watch the fake cluster
-				if err := f.WaitWatches(t.Hook); err != nil {
-					return bad(i, "DIV/watch", err.Error())
-				}
-			}
+
 			if status != wantStatus {
 				sig := "C04/status"
 				return bad(i, sig, fmt.Sprintf("queue %s task %s: hook ok=%v allowFailure=%v, task status %s, specification %s", q, brief([]specTask{t}), ok, t.Af, status, wantStatus))
@@ -441,6 +469,9 @@ func replayCase(n int, c Case, hookbin string) Result {
 			// every worker that is not inside a handler must exit without starting anything
 			for q, r := range st["run"].(map[string]interface{}) {
 				if _, none := r.(map[string]interface{})["none"]; !none {
+					continue
+				}
+				if _, parked := handled[q]; parked {
 					continue
 				}
 				id, err := f.DrainToExit(q, 5*time.Second)
